@@ -10,6 +10,12 @@ Import ListNotations.
 Open Scope list_scope.
 Open Scope nat_scope.
 
+(** "good" relative to what is known about the declared fragment types ([FG]) *)
+Definition GoodDP (S : schema) (FG : program -> Prop) (mm : name) (sub : list selection) (core : gotype) : Prop :=
+  forall P, FG P -> type_syntax_ok core = true ->
+    (forall l, leafc S sub mm l = true -> json_of_leaf l <> JNull /\ decodes P core (json_of_leaf l) [([], l)]) /\
+    (forall tn rfs, objc S sub mm tn rfs = true -> decodes P core (json_of (RObj tn rfs)) (obje S sub mm tn rfs)).
+
 (** ** names that extend another by underscores *)
 Fixpoint all_us (l : bytes) : bool := match l with [] => true | c :: r => (c =? 95)%N && all_us r end.
 
@@ -47,7 +53,8 @@ Section FinalDecode.
   Variable fields : list (name * (gotype * bool)).
   Variable conds : list (name * list name).
 
-  Notation Good := (GoodD S frs).
+  Variable FG : program -> Prop.
+  Notation Good := (GoodDP S FG).
   Hypothesis F1 : NoDup (map fst fields).
   Hypothesis F3 : forall k T dash, In (k, (T, dash)) fields -> entry_src S Good m all all k T dash.
   Hypothesis F4 : forall s, In s all -> entry_cov S Good m all fields s.
@@ -74,7 +81,7 @@ Section FinalDecode.
   Let core := match conds with [] => GStruct fs | _ :: _ => GSel m idx fs steps end.
 
   Variable P : program.
-  Hypothesis HP : frags_gen S frs P.
+  Hypothesis HP : FG P.
   Hypothesis Hsyn : type_syntax_ok core = true.
   Hypothesis HspreadD : forall F c body, In (SSpread F c body) all ->
     forall tn rfs, objc S body c tn rfs = true ->
@@ -676,7 +683,8 @@ Section CompositeDecodes.
   Variable fields : list (name * (gotype * bool)).
   Variable conds : list (name * list name).
 
-  Notation Good := (GoodD S frs).
+  Variable FG : program -> Prop.
+  Notation Good := (GoodDP S FG).
   Hypothesis F1 : NoDup (map fst fields).
   Hypothesis F3 : forall k T dash, In (k, (T, dash)) fields -> entry_src S Good m all all k T dash.
   Hypothesis F4 : forall s, In s all -> entry_cov S Good m all fields s.
@@ -703,7 +711,7 @@ Section CompositeDecodes.
   Let core := match conds with [] => GStruct fs | _ :: _ => GSel m idx fs steps end.
 
   Variable P : program.
-  Hypothesis HP : frags_gen S frs P.
+  Hypothesis HP : FG P.
   Hypothesis Hsyn : type_syntax_ok core = true.
   Hypothesis HspreadD : forall F c body, In (SSpread F c body) all ->
     forall tn rfs, objc S body c tn rfs = true ->
@@ -715,9 +723,9 @@ Section CompositeDecodes.
     intros Hconf.
     destruct (uniform_bound all (Qs S m all fields P tn rfs)) as [K HK].
     { intros s k k'. apply Qs_mono. }
-    { intros s Hs. apply (Qs_exists S frs m d all fields conds F4 F5 F6 nm E3 E5 idx P HP Hsyn HspreadD tn rfs Hconf s Hs). }
-    destruct (base_exists S frs m all fields F1 F3 nm Hnm Hext E5 E6 P tn rfs Hconf K HK) as [base [Hbase Hslots]].
-    destruct (final_value S frs HS m d all fields conds F1 F3 F4 F5 F6 E1 nm Hnm Hext Huu E3 E4 E6 idx P Hsyn tn rfs Hconf K HK base Hslots)
+    { intros s Hs. apply (Qs_exists S frs m d all fields conds FG F4 F5 F6 nm E3 E5 idx P HP Hsyn HspreadD tn rfs Hconf s Hs). }
+    destruct (base_exists S m all fields FG F1 F3 nm Hnm Hext E5 E6 P tn rfs Hconf K HK) as [base [Hbase Hslots]].
+    destruct (final_value S frs HS m d all fields conds FG F1 F3 F4 F5 F6 E1 nm Hnm Hext Huu E3 E4 E6 idx P Hsyn tn rfs Hconf K HK base Hslots)
       as [sv' [Hrun Hl]].
     apply (decodes_intro P core _ _ (Datatypes.S K) (VStruct sv')); [|exact Hl].
     rewrite decode_S. unfold core, decode_body, fs, steps, tnKey in *.
